@@ -15,11 +15,30 @@ def tokens(s: str) -> List[str]:
     return _TOK.findall(s)
 
 
+CLAUSE_WORDS = ["limit", "order", "group", "window", "union", "join", "on", "using", "set", "values", "returning", "qualify",
+                "having", "fetch", "offset", "where", "from", "into", "partition", "over", "as", "except", "intersect", "with"]
+
+
+def keyword_as_identifier(sql: str, rnd: random.Random) -> str:
+    """Replace one identifier-like token by a word that also starts (or terminates) a clause.  Parsers that
+    backtrack over such words try the same grammar element at the same position under differently trimmed
+    views, which is where match caches and first-token pruning can go wrong."""
+    toks = tokens(sql)
+    idx = [i for i, t in enumerate(toks) if re.fullmatch(r"[A-Za-z_][A-Za-z_0-9]*", t)]
+    if not idx:
+        return sql
+    i = rnd.choice(idx)
+    toks[i] = rnd.choice(CLAUSE_WORDS)
+    return "".join(toks)
+
+
 def mutate(sql: str, rnd: random.Random) -> str:
     toks = tokens(sql)
     if not toks:
         return rnd.choice(WEIRD)
-    op = rnd.randrange(14)
+    op = rnd.randrange(16)
+    if op >= 14:
+        return keyword_as_identifier(sql, rnd)
     i = rnd.randrange(len(toks))
     if op == 0:
         del toks[i]
